@@ -15,7 +15,7 @@ OUTSIDE = ["IEEE rounding of the index computation", "more cells per axis than t
 def entries(tier):
     n = 4 if tier == "quick" else 8
     es = [Entry("c13_interval_d2", params=dict(maxcells=n, fixres=0, form=0), concretize_fptoi=True, note="symbolic resolution", budget=dict(time=260, enum_ms=3000)),
-          Entry("c13_interval_f3", params=dict(maxcells=3 if tier == "quick" else 5, fixres=0, form=0), concretize_fptoi=True, note="symbolic resolution", budget=dict(time=260, enum_ms=3000))]
+          Entry("c13_interval_f3", params=dict(maxcells=2 if tier == "quick" else 5, fixres=0, form=0), concretize_fptoi=True, note="symbolic resolution", budget=dict(time=120 if tier == "quick" else 260, enum_ms=3000))]
     # concrete resolutions: the index arithmetic is linear, every enumeration is complete
     for res in ([0.25, 1.0] if tier == "quick" else [0.25, 1.0, 0.1, 1e-3, 10.0]):
         es.append(Entry("c13_interval_d2", params=dict(maxcells=n + 2, fixres=res, form=0), concretize_fptoi=True, shard=4))
